@@ -4,6 +4,12 @@ import XrsVerif.Proofs.ViewshedOutput
 import XrsVerif.Proofs.ViewshedEvents
 import XrsVerif.Proofs.ViewshedDiscipline
 import XrsVerif.Gen.ViewshedFacts
+import XrsVerif.Proofs.ILViewshedOrder
+import XrsVerif.Proofs.ILViewshedRotR
+import XrsVerif.Proofs.ILViewshedSucc
+import XrsVerif.Proofs.ILViewshedInsProg
+import XrsVerif.Proofs.ILViewshedDel
+import XrsVerif.Proofs.ILViewshedLift
 import Mathlib.Tactic.Positivity
 /-
   C05 -- viewshed marks a cell visible exactly when the line-of-sight model says so.
@@ -71,6 +77,10 @@ import Mathlib.Tactic.Positivity
                                  over initial fill + sweep every cell is inserted, queried, deleted in this order (east ray:
                                  and re-inserted at the very end); an insertion never meets an active cell, a query or
                                  deletion always does; without the initial fill this fails.
+    * the generated status-tree routines (section 7, layer T3): `generated_query_decides` -- the program translated
+      statement by statement from `_max_grad_in_status_struct` decides line of sight on every state whose arrays hold a
+      well-linked BST without overestimates below the root; `generated_rotations_are_model_rotations`,
+      `generated_left_rotation_preserves`, `generated_small_routines`, `generated_tree_successor`.
       NOT in the model: the float value of a bearing (`atan`), of a gradient (`atan`, `sqrt`) -- compared by seam 0 / the
       geometric oracle of the correspondence; NaN terrains (outside the property's quantifier).
 -/
@@ -717,5 +727,301 @@ example : replay [] (sweepOps (fun i j => (i * j : Int)) 3 4 1 1) = true ∧
   ⟨sweep_discipline _ 3 4 1 1 (by decide), sweep_without_initial_fill_breaks _ 3 4 1 1 (by decide) (by decide)⟩
 
 end Events
+
+/-! ### 7. the status-tree routines as *generated from the source* (layer T3)
+
+  `Gen.IL.vs*` are the ILang translations of `_find_value_min_value`, `_tree_minimum`, `_search_for_node`,
+  `_left_rotate`, `_right_rotate`, `_max_grad_in_status_struct` (harness/facts_il.py, regenerated every run, validated
+  against the numba-compiled functions by the `il:` streams).  The refinement theorems (Proofs/ILViewshed*.lean) say
+  that these programs compute the hand model the theorems above are about, on every state whose two arrays hold a
+  well-linked tree: `sh : Sh` is the pointer structure (which row is the root, which rows hang left / right),
+  `Linked` says the link columns spell it out (NIL = -1 = the last row), `absT` reads the model tree off the arrays. -/
+section Generated
+open XrsVerif.IL XrsVerif.ILVs
+variable {F : Type} [Fl F] [Trig α]
+
+/-- an ILang state at the value domain `NV α` (all numbers non-NaN) that holds the status tree `t0` at `root` -/
+structure Holds (s : State (NV α)) (n : Nat) (sh : Sh) (t0 : Viewshed.Tree α) : Prop where
+  vs : VS s n
+  run : s.ctl = .run
+  linked : Linked (s.ia "tree_nodes") n (-1) sh
+  nodup : sh.idxs.Nodup
+  root : s.ienv "root" = sh.ptr
+  nil : vAt (s.fa "tree_vals") (n - 1) 7 = smallest
+  abs : absT (s.fa "tree_vals") (s.ia "tree_nodes") sh = mapT emb t0
+
+/-- the generated `_max_grad_in_status_struct` returns the model's `query` (search, phase 1 along the parent pointers,
+    phase 2 = in-order predecessor walk with early exit) and leaves the arrays alone; fuel = one unit per loop iteration -/
+theorem generated_query_is_model_query (s : State (NV α)) (fuel n : Nat) (sh : Sh) (t0 : Viewshed.Tree α)
+    (h : Holds s n sh t0) (hb : BST t0) (K ang g : α)
+    (hd : s.fenv "distance" = some K) (ha : s.fenv "angle" = some ang) (hg : s.fenv "gradient" = some g)
+    (hfuel : sh.size + sh.height + 2 ≤ fuel) :
+    let q := Gen.IL.vsQuery.run s fuel
+    q.ctl = .ret ∧ q.fenv "ret0" = some (query smallestK t0 K ang g) ∧ q.fa = s.fa ∧ q.ia = s.ia :=
+  vsQuery_model s fuel n h.vs h.run sh h.linked h.nodup h.root h.nil t0 h.abs hb K ang g hd ha hg hfuel
+
+/-- **the generated query decides line of sight**: `query_decides` for the program translated from the source -/
+theorem generated_query_decides (s : State (NV α)) (fuel n : Nat) (sh : Sh) (t0 : Viewshed.Tree α)
+    (h : Holds s n sh t0) (hb : BST t0) (hq : AugLeQ smallestK t0) (K ang g : α) (hS : smallestK ≤ g)
+    (hK : ∃ m ∈ t0.toList, m.key = K)
+    (hact : ∀ m ∈ t0.toList, m.key < K → spans m ang = true ∨ minv m ≤ g)
+    (hd : s.fenv "distance" = some K) (ha : s.fenv "angle" = some ang) (hg : s.fenv "gradient" = some g)
+    (hfuel : sh.size + sh.height + 2 ≤ fuel) :
+    let q := Gen.IL.vsQuery.run s fuel
+    q.ctl = .ret ∧ ∃ v, q.fenv "ret0" = some v ∧
+      (v ≤ g ↔ ∀ m ∈ t0.toList, m.key < K → spans m ang = true → itp m ang ≤ g) := by
+  obtain ⟨h1, h2, _, _⟩ := generated_query_is_model_query s fuel n sh t0 h hb K ang g hd ha hg hfuel
+  exact ⟨h1, _, h2, query_decides K ang g hS hb hq hK hact⟩
+
+/-- for every number type: the generated query is the two-phase query of the abstracted tree with the phase-2 list
+    given structurally (`predsOf`), provided the code's `raise ValueError` is not reached -/
+theorem generated_query_generic (s : State F) (fuel n : Nat) (hv : VS s n) (hrun : s.ctl = .run) (sh : Sh)
+    (hL : Linked (s.ia "tree_nodes") n (-1) sh) (hN : sh.idxs.Nodup) (hroot : s.ienv "root" = sh.ptr)
+    (hS : vAt (s.fa "tree_vals") (n - 1) 7 = smallest)
+    (hnf : ∀ nd ∈ predsOf (absT (s.fa "tree_vals") (s.ia "tree_nodes") sh) ⟨s.fenv "distance"⟩,
+      ¬ (⟨s.fenv "distance"⟩ : Fv F) < nd.key)
+    (hfuel : sh.size + sh.height + 2 ≤ fuel) :
+    let q := Gen.IL.vsQuery.run s fuel
+    q.ctl = .ret ∧
+      q.fenv "ret0" = (queryP smallest (absT (s.fa "tree_vals") (s.ia "tree_nodes") sh)
+        ⟨s.fenv "distance"⟩ ⟨s.fenv "angle"⟩ ⟨s.fenv "gradient"⟩).v ∧
+      q.fa = s.fa ∧ q.ia = s.ia :=
+  vsQuery_refines s fuel n hv hrun sh hL hN hroot hS hnf hfuel
+
+/-- the generated `_left_rotate` / `_right_rotate` are the model's `rotL` / `rotR` on the abstraction, stored maxima
+    included, for every number type (no order laws needed) -/
+theorem generated_rotations_are_model_rotations (s : State F) (fuel n : Nat) (hv : VS s n) (hrun : s.ctl = .run)
+    (a : Sh) (x : Nat) (b : Sh) (y : Nat) (c : Sh) (par : Int) :
+    (Linked (s.ia "tree_nodes") n par (.node a x (.node b y c)) → (Sh.node a x (.node b y c)).idxs.Nodup →
+      s.ienv "x" = x → (par = -1 ∨ ∃ p : Nat, par = (p : Int) ∧ p + 1 < n ∧ p ∉ (Sh.node a x (.node b y c)).idxs) →
+      let q := Gen.IL.vsLeftRotate.run s fuel
+      q.ctl = .ret ∧ Linked (q.ia "tree_nodes") n par (.node (.node a x b) y c) ∧
+        absT (q.fa "tree_vals") (q.ia "tree_nodes") (.node (.node a x b) y c) =
+          rotL (vAt (s.fa "tree_vals") (n - 1) 7) (absT (s.fa "tree_vals") (s.ia "tree_nodes") (.node a x (.node b y c))) ∧
+        q.ienv "ret0" = (if par = -1 then (y : Int) else s.ienv "root")) ∧
+    (Linked (s.ia "tree_nodes") n par (.node (.node a x b) y c) → (Sh.node (.node a x b) y c).idxs.Nodup →
+      s.ienv "y" = y → (par = -1 ∨ ∃ p : Nat, par = (p : Int) ∧ p + 1 < n ∧ p ∉ (Sh.node (.node a x b) y c).idxs) →
+      let q := Gen.IL.vsRightRotate.run s fuel
+      q.ctl = .ret ∧ Linked (q.ia "tree_nodes") n par (.node a x (.node b y c)) ∧
+        absT (q.fa "tree_vals") (q.ia "tree_nodes") (.node a x (.node b y c)) =
+          rotR (vAt (s.fa "tree_vals") (n - 1) 7) (absT (s.fa "tree_vals") (s.ia "tree_nodes") (.node (.node a x b) y c)) ∧
+        q.ienv "ret0" = (if par = -1 then (x : Int) else s.ienv "root")) := by
+  refine ⟨fun hl hn hx hp => ?_, fun hl hn hy hp => ?_⟩
+  · have := vsLeftRotate_refines s fuel n hv hrun a x b y c par hl hn hx hp
+    exact ⟨this.1, this.2.2.2.1, this.2.2.2.2.1, this.2.2.1⟩
+  · have := vsRightRotate_refines s fuel n hv hrun a x b y c par hl hn hy hp
+    exact ⟨this.1, this.2.2.2.1, this.2.2.2.2.1, this.2.2.1⟩
+
+/-- hence (`rotate_preserves`) the subtree the generated left rotation leaves behind holds the same nodes in the same
+    order, and is ordered / free of overestimates / exact whenever the subtree before was -/
+theorem generated_left_rotation_preserves (s : State (NV α)) (fuel n : Nat) (hv : VS s n) (hrun : s.ctl = .run)
+    (a : Sh) (x : Nat) (b : Sh) (y : Nat) (c : Sh) (par : Int) (t0 : Viewshed.Tree α)
+    (hl : Linked (s.ia "tree_nodes") n par (.node a x (.node b y c))) (hn : (Sh.node a x (.node b y c)).idxs.Nodup)
+    (hx : s.ienv "x" = x) (hp : par = -1 ∨ ∃ p : Nat, par = (p : Int) ∧ p + 1 < n ∧ p ∉ (Sh.node a x (.node b y c)).idxs)
+    (hS : vAt (s.fa "tree_vals") (n - 1) 7 = smallest)
+    (habs : absT (s.fa "tree_vals") (s.ia "tree_nodes") (.node a x (.node b y c)) = mapT emb t0) :
+    let q := Gen.IL.vsLeftRotate.run s fuel
+    ∃ t1, absT (q.fa "tree_vals") (q.ia "tree_nodes") (.node (.node a x b) y c) = mapT emb t1 ∧
+      t1.toList = t0.toList ∧ (BST t0 → BST t1) ∧ (AugLe smallestK t0 → AugLe smallestK t1) ∧
+      (Exact smallestK t0 → Exact smallestK t1) := by
+  have h := (vsLeftRotate_refines s fuel n hv hrun a x b y c par hl hn hx hp).2.2.2.2.1
+  rw [habs, hS, smallest_emb, rotL_emb] at h
+  have hp := rotate_preserves (α := α) smallestK [] (t := t0)
+  simp only [atPath] at hp
+  exact ⟨rotL smallestK t0, h, hp.1.1, fun hb => (hp.2.1 hb).1, fun ha => (hp.2.2.1 ha).1, fun he => (hp.2.2.2 he).1⟩
+
+/-- **a generated rotation anywhere in the tree is one `Rebal` step of the model**: run at `NV α` at a position (`ctx`) of a
+    well-linked tree holding the image of `t0`, the generated `_left_rotate` leaves a well-linked tree without repeated rows
+    that holds `atPath (rotL S) p t0` (`p` the path to the position) -- so it keeps the node list, BST, AugLe and Exact
+    (`rotate_preserves`) and every relation `Rel` (`fixups_preserve`); likewise `_right_rotate` -/
+theorem generated_rotation_at_path (s : State (NV α)) (fuel n : Nat) (hv : VS s n) (hrun : s.ctl = .run) (ctx : ILVs.Ctx)
+    (a : Sh) (x : Nat) (b : Sh) (y : Nat) (c : Sh) (t0 : Viewshed.Tree α)
+    (hS : vAt (s.fa "tree_vals") (n - 1) 7 = smallest) :
+    (Linked (s.ia "tree_nodes") n (-1) (plug (.node a x (.node b y c)) ctx) →
+      (plug (.node a x (.node b y c)) ctx).idxs.Nodup → s.ienv "x" = x →
+      absT (s.fa "tree_vals") (s.ia "tree_nodes") (plug (.node a x (.node b y c)) ctx) = mapT emb t0 →
+      let q := Gen.IL.vsLeftRotate.run s fuel
+      let t1 := atPath (rotL smallestK) (pathOf ctx) t0
+      q.ctl = .ret ∧ Linked (q.ia "tree_nodes") n (-1) (plug (.node (.node a x b) y c) ctx) ∧
+        (plug (.node (.node a x b) y c) ctx).idxs.Nodup ∧
+        absT (q.fa "tree_vals") (q.ia "tree_nodes") (plug (.node (.node a x b) y c) ctx) = mapT emb t1 ∧
+        t1.toList = t0.toList ∧ (BST t0 → BST t1) ∧ (AugLe smallestK t0 → AugLe smallestK t1) ∧
+        (∀ (d : Node α) (st : List (Node α)), Rel smallestK d t0 st → Rel smallestK d t1 st)) ∧
+    (Linked (s.ia "tree_nodes") n (-1) (plug (.node (.node a x b) y c) ctx) →
+      (plug (.node (.node a x b) y c) ctx).idxs.Nodup → s.ienv "y" = y →
+      absT (s.fa "tree_vals") (s.ia "tree_nodes") (plug (.node (.node a x b) y c) ctx) = mapT emb t0 →
+      let q := Gen.IL.vsRightRotate.run s fuel
+      let t1 := atPath (rotR smallestK) (pathOf ctx) t0
+      q.ctl = .ret ∧ Linked (q.ia "tree_nodes") n (-1) (plug (.node a x (.node b y c)) ctx) ∧
+        (plug (.node a x (.node b y c)) ctx).idxs.Nodup ∧
+        absT (q.fa "tree_vals") (q.ia "tree_nodes") (plug (.node a x (.node b y c)) ctx) = mapT emb t1 ∧
+        t1.toList = t0.toList ∧ (BST t0 → BST t1) ∧ (AugLe smallestK t0 → AugLe smallestK t1) ∧
+        (∀ (d : Node α) (st : List (Node α)), Rel smallestK d t0 st → Rel smallestK d t1 st)) := by
+  have hp := rotate_preserves (α := α) smallestK (pathOf ctx) (t := t0)
+  refine ⟨fun hL hN hx habs => ?_, fun hL hN hy habs => ?_⟩
+  · obtain ⟨r1, _, r3, r4, r5, _, _⟩ := vsLeftRotate_at_path s fuel n hv hrun ctx a x b y c hL hN hx
+    rw [habs, hS, smallest_emb, atPath_emb _ _ (rotL_emb smallestK)] at r5
+    exact ⟨r1, r3, r4, r5, hp.1.1, fun h => (hp.2.1 h).1, fun h => (hp.2.2.1 h).1,
+      fun d st hr => fixups_preserve (Rebal.rotL (pathOf ctx) (Rebal.refl _)) hr⟩
+  · obtain ⟨r1, _, r3, r4, r5, _, _⟩ := vsRightRotate_at_path s fuel n hv hrun ctx a x b y c hL hN hy
+    rw [habs, hS, smallest_emb, atPath_emb _ _ (rotR_emb smallestK)] at r5
+    exact ⟨r1, r3, r4, r5, hp.1.2, fun h => (hp.2.1 h).2, fun h => (hp.2.2.1 h).2,
+      fun d st hr => fixups_preserve (Rebal.rotR (pathOf ctx) (Rebal.refl _)) hr⟩
+
+/-- the small routines: `_find_value_min_value` is `minv`; `_tree_minimum` returns the row of the first node in order;
+    `_search_for_node` returns NIL exactly when the model's `contains` is false -/
+theorem generated_small_routines (s : State F) (fuel n : Nat) (hv : VS s n) (hrun : s.ctl = .run) :
+    (PtrOK n (s.ienv "node_id") →
+      (Gen.IL.vsFindValueMin.run s fuel).fenv "ret0" =
+        (minv (nodeAt (s.fa "tree_vals") (rowOf n (s.ienv "node_id")))).v) ∧
+    (∀ (l : Sh) (i : Nat) (r : Sh) (par : Int), Linked (s.ia "tree_nodes") n par (.node l i r) → s.ienv "x" = i →
+      l.lheight < fuel →
+      ∃ m : Nat, (Gen.IL.vsTreeMinimum.run s fuel).ienv "ret0" = m ∧
+        (absT (s.fa "tree_vals") (s.ia "tree_nodes") (.node l i r)).toList.head? = some (nodeAt (s.fa "tree_vals") m)) ∧
+    (∀ (sh : Sh) (par : Int), Linked (s.ia "tree_nodes") n par sh → s.ienv "root" = sh.ptr → sh.height < fuel →
+      ((Gen.IL.vsSearch.run s fuel).ienv "ret0" = -1 ↔
+        (absT (s.fa "tree_vals") (s.ia "tree_nodes") sh).contains ⟨s.fenv "key"⟩ = false)) := by
+  refine ⟨fun hp => (vsFindValueMin_refines s fuel n hv hrun hp).2.1, fun l i r par hl hx hf => ?_,
+    fun sh par hl hr hf => ?_⟩
+  · exact ⟨minIdx l i, (vsTreeMinimum_refines s fuel n hv hrun l i r par hl hx hf).2.1, minIdx_head _ _ l i r⟩
+  · rw [(vsSearch_refines s fuel n hv hrun sh par hl hr hf).2.1, findPtr_contains]
+    simp
+
+/-- the generated `_tree_successor` at a node with a right subtree (the only use `_delete_from_tree` makes of it)
+    returns the row of the in-order successor: the first node in order of the right subtree -/
+theorem generated_tree_successor (s : State F) (fuel n : Nat) (hv : VS s n) (hrun : s.ctl = .run)
+    (l : Sh) (i : Nat) (rl : Sh) (m : Nat) (rr : Sh) (ctx : ILVs.Ctx)
+    (hl : Linked (s.ia "tree_nodes") n (ctxPar ctx) (.node l i (.node rl m rr)))
+    (hc : CtxLinked (s.ia "tree_nodes") n (i : Int) ctx) (hx : s.ienv "x" = i)
+    (hf : (Sh.node rl m rr).height + ctx.length + 1 < fuel) :
+    let q := Gen.IL.vsTreeSuccessor.run s fuel
+    q.ctl = .ret ∧ ∃ k : Nat, q.ienv "ret0" = k ∧
+      (absT (s.fa "tree_vals") (s.ia "tree_nodes") (.node rl m rr)).toList.head? = some (nodeAt (s.fa "tree_vals") k) := by
+  obtain ⟨h1, h2, _, _⟩ := vsTreeSuccessor_refines s fuel n hv hrun l i (.node rl m rr) ctx hl hc hx hf
+  obtain ⟨k, hk, hh⟩ := succPtr_head (s.fa "tree_vals") (s.ia "tree_nodes") i rl m rr ctx
+  exact ⟨h1, k, h2.trans hk, hh⟩
+
+/-- **the generated `_insert_into_tree` up to `_rb_insert_fixup`** (PARTIAL: the fixup itself -- the recolouring loop with
+    its six inlined rotations, `ILVs.insFixup` -- is not covered): on arrays holding a non-empty BST image `t0`, with
+    `node_id` a fresh row and `value` the node `nn`, the program reaches the fixup with arrays that hold the model's
+    `leafInsert nn t0` (descent to the empty slot, creation and linking of the new red leaf, upward propagation of its
+    minimum gradient), well linked, no row twice -- hence (`leaf_insert_preserves` with no rebalancing) related to the
+    active list with the new cell added -/
+theorem generated_insert_reaches_leaf_insert (s : State (NV α)) (fuel n m : Nat) (hv : VS s n) (hm : VVal s m)
+    (hrun : s.ctl = .run) (l : Sh) (i : Nat) (rr : Sh) (hL : Linked (s.ia "tree_nodes") n (-1) (.node l i rr))
+    (hN : (Sh.node l i rr).idxs.Nodup) (hroot : s.ienv "root" = i) (nid : Nat) (hnid : nid + 1 < n)
+    (hfresh : nid ∉ (Sh.node l i rr).idxs) (hid : s.ienv "node_id" = nid)
+    (hfuel : (Sh.node l i rr).height + 1 < fuel) (t0 : Viewshed.Tree α) (nn : Node α)
+    (habs : absT (s.fa "tree_vals") (s.ia "tree_nodes") (.node l i rr) = mapT emb t0) (hval : valNode s = mapN emb nn) :
+    let sh' := insShape (s.fa "tree_vals") (valAt s 0) (.node l i rr) nid
+    ∃ sP : State (NV α), Gen.IL.vsInsert.run s fuel = exec fuel insFixup sP ∧ sP.ctl = .run ∧
+      Linked (sP.ia "tree_nodes") n (-1) sh' ∧ sh'.idxs.Nodup ∧
+      absT (sP.fa "tree_vals") (sP.ia "tree_nodes") sh' = mapT emb (leafInsert nn t0) ∧
+      sP.ienv "inserted" = nid ∧
+      (∀ (S : α) (d : Node α) (st : List (Node α)), Rel S d t0 st → nn.key ≠ d.key → (∀ k ∈ st, k.key ≠ nn.key) →
+        Rel S d (leafInsert nn t0) (nn :: st)) := by
+  obtain ⟨sP, h1, h2, _, h4, h5, h6, h7, _, _⟩ :=
+    vsInsert_prefix_refines s fuel n m hv hm hrun l i rr hL hN hroot nid hnid hfresh hid hfuel
+  refine ⟨sP, h1, h2, h4, h5, ?_, h7, fun S d st hr hd hf => leaf_insert_preserves nn hr hd hf (Rebal.refl _)⟩
+  rw [h6, habs, hval, insCoreC_emb, (insCoreC_eq nn t0).1]
+  rfl
+
+/-- **the generated `_delete_from_tree`, descent only** (PARTIAL: the splice, the loops L1 / L2 with the recomputations
+    F1 / C of the stored maxima and the colour fixup -- `ILVs.delRest` -- are not covered): a key that is not in the tree
+    makes the program stop with `ValueError` (the model's `delCore = none`); a key that is in the tree makes it continue
+    with `z` = the node found and `y` = the node the model splices out: `z` itself when it has a NIL child, else the
+    leftmost node of its right subtree -/
+theorem generated_delete_descent (s : State F) (fuel n : Nat) (hv : VS s n) (hrun : s.ctl = .run) (sh : Sh)
+    (hL : Linked (s.ia "tree_nodes") n (-1) sh) (hN : sh.idxs.Nodup) (hroot : s.ienv "root" = sh.ptr)
+    (hf : sh.height + 1 < fuel) :
+    ((absT (s.fa "tree_vals") (s.ia "tree_nodes") sh).contains ⟨s.fenv "key"⟩ = false →
+      (Gen.IL.vsDelete.run s fuel).ctl = .err "ValueError") ∧
+    (∀ (l : Sh) (z : Nat) (r : Sh) (ctx : ILVs.Ctx),
+      findZ (s.fa "tree_vals") ⟨s.fenv "key"⟩ sh [] = some (l, z, r, ctx) →
+      ∃ sD : State F, Gen.IL.vsDelete.run s fuel = exec fuel delRest sD ∧ sD.ctl = .run ∧ sD.ia = s.ia ∧ sD.fa = s.fa ∧
+        sD.ienv "z" = z ∧ sD.ienv "y" = spliceIdx l z r) := by
+  refine ⟨fun h => vsDelete_absent s fuel n hv hrun sh hL hroot (by omega) h, fun l z r ctx hfz => ?_⟩
+  obtain ⟨sD, h1, h2, h3, h4, _, h6, h7, _⟩ := vsDelete_descent_refines s fuel n hv hrun sh hL hN hroot l z r ctx hfz hf
+  exact ⟨sD, h1, h2, h3, h4, h6, h7⟩
+
+/-! non-vacuity: a concrete state holding the three-node tree of the example after `query_decides` (rows 0 = the root
+    with key 2, 1 = key 1, 2 = key 3, 3 = NIL); the generated query at key 3 returns 2, the gradient of the node
+    with key 1 found by the exact walk; the left rotation at the root applies -/
+def exVals : List (NV ℚ) :=
+  ([2, 1, 1, 1, 0, 1, 2, 1,   1, 2, 2, 2, 0, 1, 2, 2,   3, 0, 0, 0, 0, 1, 2, 0,
+    0, 0, 0, 0, 0, 0, 0, -10000000000000000000000] : List ℚ).map some
+def exNodes : List Int := [1, 1, 2, -1,   0, -1, -1, 0,   0, -1, -1, 0,   1, -1, -1, -1]
+def exState [Trig ℚ] : State (NV ℚ) :=
+  { State.empty with
+    fa := fun a => if a = "tree_vals" then exVals else [],
+    ia := fun a => if a = "tree_nodes" then exNodes else [],
+    shp := fun a => if a = "tree_vals" then [4, 8] else if a = "tree_nodes" then [4, 4] else [],
+    ienv := fun _ => 0,
+    fenv := fun v => if v = "distance" then some 3 else if v = "angle" then some 1 else if v = "gradient" then some 0
+      else none }
+def exTree : Viewshed.Tree ℚ :=
+  .node (.node .nil ⟨1, 2, 2, 2, 0, 1, 2⟩ 2 true .nil) ⟨2, 1, 1, 1, 0, 1, 2⟩ 1 false (.node .nil ⟨3, 0, 0, 0, 0, 1, 2⟩ 0 true .nil)
+def exShape : Sh := .node (.node .nil 1 .nil) 0 (.node .nil 2 .nil)
+
+theorem exState_holds [Trig ℚ] : Holds exState 4 exShape exTree := by
+  refine ⟨⟨rfl, rfl, rfl, rfl, by decide⟩, rfl, ?_, by decide, rfl, ?_, ?_⟩
+  · simp [Linked, nAt, exState, exNodes, Sh.ptr, exShape]
+  · simp [vAt, exState, exVals, smallest]
+  · simp [absT, nodeAt, vAt, nAt, mapT, mapN, emb, exState, exVals, exNodes, exShape, exTree]
+
+example [Trig ℚ] : (Gen.IL.vsQuery.run exState 7).ctl = .ret ∧ (Gen.IL.vsQuery.run exState 7).fenv "ret0" = some 2 := by
+  have hb : BST exTree := by rw [← bstB_iff]; decide
+  obtain ⟨h1, h2, _, _⟩ := generated_query_is_model_query exState 7 4 exShape exTree exState_holds hb 3 1 0 rfl rfl rfl
+    (by decide)
+  refine ⟨h1, ?_⟩
+  rw [h2]
+  have : query (smallestK : ℚ) exTree 3 1 0 = 2 := by
+    unfold smallestK
+    norm_num [query, Tree.contains, short, walk, exTree, Tree.toList, spans, itp, mx2, mn2, minv, mxOf]
+  rw [this]
+
+example [Trig ℚ] :
+    let q := Gen.IL.vsLeftRotate.run exState 0
+    q.ctl = .ret ∧ q.ienv "ret0" = 2 ∧ Linked (q.ia "tree_nodes") 4 (-1) (.node (.node (.node .nil 1 .nil) 0 .nil) 2 .nil) := by
+  have h := (generated_rotations_are_model_rotations exState 0 4 exState_holds.vs rfl (.node .nil 1 .nil) 0 .nil 2 .nil
+    (-1)).1 exState_holds.linked (by decide) rfl (Or.inl rfl)
+  exact ⟨h.1, by simpa using h.2.2.2, h.2.1⟩
+
+/-- the same tree in five rows (row 3 free, row 4 = NIL) with a new node of key 4 in `value` -/
+def exVals5 : List (NV ℚ) :=
+  ([2, 1, 1, 1, 0, 1, 2, 1,   1, 2, 2, 2, 0, 1, 2, 2,   3, 0, 0, 0, 0, 1, 2, 0,   0, 0, 0, 0, 0, 0, 0, 0,
+    0, 0, 0, 0, 0, 0, 0, -10000000000000000000000] : List ℚ).map some
+def exNodes5 : List Int := [1, 1, 2, -1,   0, -1, -1, 0,   0, -1, -1, 0,   0, 0, 0, 0,   1, -1, -1, -1]
+def exStateIns [Trig ℚ] : State (NV ℚ) :=
+  { State.empty with
+    fa := fun a => if a = "tree_vals" then exVals5 else if a = "value" then ([4, 3, 3, 3, 0, 1, 2, 0] : List ℚ).map some else [],
+    ia := fun a => if a = "tree_nodes" then exNodes5 else [],
+    shp := fun a => if a = "tree_vals" then [5, 8] else if a = "tree_nodes" then [5, 4] else if a = "value" then [8] else [],
+    ienv := fun v => if v = "node_id" then 3 else 0 }
+
+example [Trig ℚ] : ∃ sP : State (NV ℚ), Gen.IL.vsInsert.run exStateIns 4 = exec 4 insFixup sP ∧ sP.ctl = .run ∧
+    absT (sP.fa "tree_vals") (sP.ia "tree_nodes") (insShape exVals5 (valAt exStateIns 0) exShape 3) =
+      mapT emb (leafInsert ⟨4, 3, 3, 3, 0, 1, 2⟩ exTree) := by
+  obtain ⟨sP, h1, h2, _, _, h5, _⟩ := generated_insert_reaches_leaf_insert exStateIns 4 5 8
+    ⟨rfl, rfl, rfl, rfl, by decide⟩ ⟨rfl, rfl, by decide⟩ rfl (.node .nil 1 .nil) 0 (.node .nil 2 .nil)
+    (by simp [Linked, nAt, exStateIns, exNodes5, Sh.ptr]) (by decide) rfl 3 (by decide) (by decide) rfl (by decide)
+    exTree ⟨4, 3, 3, 3, 0, 1, 2⟩
+    (by simp [absT, nodeAt, vAt, nAt, mapT, mapN, emb, exStateIns, exVals5, exNodes5, exTree])
+    (by simp [valNode, valAt, mapN, emb, exStateIns])
+  exact ⟨sP, h1, h2, h5⟩
+
+example [Trig ℚ] : (Gen.IL.vsDelete.run { exState with fenv := fun _ => some 7 } 4).ctl = .err "ValueError" := by
+  refine (generated_delete_descent { exState with fenv := fun _ => some 7 } 4 4 ⟨rfl, rfl, rfl, rfl, by decide⟩ rfl exShape
+    exState_holds.linked (by decide) rfl (by decide)).1 ?_
+  simp [absT, nodeAt, vAt, nAt, exState, exVals, exNodes, exShape, Tree.contains, fv_lt]
+  norm_num
+
+example [Trig ℚ] :
+    absT ((Gen.IL.vsLeftRotate.run exState 0).fa "tree_vals") ((Gen.IL.vsLeftRotate.run exState 0).ia "tree_nodes")
+      (.node (.node (.node .nil 1 .nil) 0 .nil) 2 .nil) = mapT emb (rotL smallestK exTree) :=
+  ((generated_rotation_at_path exState 0 4 exState_holds.vs rfl [] (.node .nil 1 .nil) 0 .nil 2 .nil exTree
+    exState_holds.nil).1 exState_holds.linked (by decide) rfl exState_holds.abs).2.2.2.1
+
+end Generated
 
 end XrsVerif.C05
